@@ -76,16 +76,22 @@ def generate(rng, tier):
         # leading calls with distinct keys may go through the constructor
         ctor_n = 0
         if rng.random() < 0.4:
-            keys = set()
+            spelled, taken = set(), set()
             for c in calls:
                 k = tuple(sorted(c["key"]))
-                if k in keys or c["overwrite"] or k not in [tuple(sorted(x)) for x in POOL]:
+                # a dict cannot hold one spelling twice, but ("X","Y") and ("Y","X") are two entries
+                # for the same axis set; they must not clash on a position (the constructor would raise)
+                slots = {(k, tuple(sorted(DIMS.get(n, [n])))) for n in c["names"]}
+                if tuple(c["key"]) in spelled or slots & taken or c["overwrite"] or \
+                        k not in [tuple(sorted(x)) for x in POOL]:
                     break
                 if any(n not in DIMS for n in c["names"]):
                     break
-                keys.add(k)
+                spelled.add(tuple(c["key"]))
+                taken |= slots
                 ctor_n += 1
-        cases.append({"calls": calls, "ctor_n": ctor_n})
+        # read-only queries interleaved with the registrations must leave no trace
+        cases.append({"calls": calls, "ctor_n": ctor_n, "queries_between": rng.random() < 0.5})
     if tier == "thorough":
         # exhaustive: all histories of <= 3 single/double calls over a pool of 3 variables of one key
         pool = ["dx_c", "dx_l", "dx_c2"]
@@ -120,7 +126,22 @@ def run_history(case, unfold=False):
     metrics = {tuple(c["key"]): list(c["names"]) for c in calls[:k]} if k else None
     g = Grid(ds, coords=coords, periodic=False, metrics=metrics, autoparse_metadata=False)
     outs += [None] * k
+
+    def probe_all():
+        import warnings
+        for axes, probes in ((("X",), ["dx_c", "dx_l", "dx_o"]), (("X", "Y"), ["a_cc", "a_lc", "a_cl", "a_ll"])):
+            for p in probes:
+                try:
+                    with warnings.catch_warnings():
+                        warnings.simplefilter("ignore")
+                        g.get_metric(ds[p], axes)
+                except Exception:
+                    pass
+    if case.get("queries_between"):
+        probe_all()
     for c in calls[k:]:
+        if case.get("queries_between"):
+            probe_all()
         try:
             if unfold and all(n in DIMS for n in c["names"]):
                 for n in c["names"]:
